@@ -7,15 +7,15 @@ A_NOTE = ("Trusted: the harness's own bookkeeping (BFS, fold of emitted events, 
           "Bounds: N keys held at once, generated layouts of <=3 mappings over a 4-key physical alphabet plus foreign keys, the hand-built families Q4, S4/S5, O3, M2, M3, NR4, K1-K5 (DESIGN 3.2), fixed corpus read from the tree.")
 
 CHECKS = {
- "C01": ("model_checking", "A", "3.1, 6-C01", "explicit-state BFS to fixpoint over the real Mapper::step",
+ "C01": ("model_checking", "A", "3.1, 6-C01", "explicit-state BFS to fixpoint over the real Mapper::step; device-level half: stateless DFS over delivery schedules of the real per-device loop (Engine B), held on the device vs held physically at every return to waiting",
          "Every reachable product state (real mapper snapshot x physically held set x fold of emitted events) of every layout of the corpus is visited; the invariant phys=0 => out=0 is checked in each, ill-formed events and release_all included; history length unbounded (fixpoint)."),
- "C02": ("model_checking", "A", "3.3, 6-C02", "explicit-state BFS to fixpoint over the real Mapper::step with product monitors",
+ "C02": ("model_checking", "A", "3.3, 6-C02", "explicit-state BFS to fixpoint over the real Mapper::step with product monitors; device-level half of clause (a) over delivery schedules of the real per-device loop (Engine B)",
          "State invariants (a) justified, (b) swallowed single-key-mapped keys, (c) no press on release, (d) trigger keys consumed, evaluated after every transition of every reachable state."),
  "C03": ("model_checking", "A", "3.3, 6-C03", "explicit-state BFS over the real Mapper::step; reference firing rule as transition predicate",
          "At every acted-on press in every reachable state of every non-absorbing layout the observed events must match the last-listed satisfied mapping / pass-through / swallowed-press rule."),
  "C04": ("model_checking", "A", "6-C04, 7.1", "explicit-state BFS over the real Mapper::step; event-by-event fold inside each firing step",
          "At the press of the fired mapping's final output key, in every reachable state: listed modifiers down, no stale modifier. One shape (modifier as final output key) is an open known finding."),
- "C05": ("model_checking", "A", "6-C05", "explicit-state BFS over the real Mapper::step; foreign keys in the alphabet",
+ "C05": ("model_checking", "A", "6-C05", "explicit-state BFS over the real Mapper::step; foreign keys in the alphabet; device-level half of clause (a) over delivery schedules of the real per-device loop incl. large notifications ending in an uninvolved key (Engine B)",
          "Foreign keys (modifier and non-modifier) pressed/released from every reachable state; release and in-effect clauses as transition predicates; empty layout is the identity on acted-on events."),
  "C06": ("model_checking", "A", "3.4, 6-C06", "explicit-state BFS + coarsest bisimulation (partition refinement) of the explored Mealy machine; loop half: stateless DFS over tablet-mode schedules of the real per-device loop (Engine B)",
          "Every rest state (after releases or after release_all from any reachable state) has nothing held and is bisimilar to the initial state, i.e. answers every continuation within the bound like a fresh mapper."),
@@ -62,7 +62,7 @@ def repo_hook_commits():
 
 ENGINES = [
  {"name": "A", "path": "harness/src/engine_a.rs", "serves_properties": ["C01","C02","C03","C04","C05","C06","C07","C08","C09","C19","C14"], "kind_free_text": "explicit-state BFS to fixpoint over the real Mapper::step/release_all with product monitors; partition refinement for C06"},
- {"name": "B", "path": "harness/src/engine_b.rs", "serves_properties": ["C06","C10","C11","C12","C19","C20"], "kind_free_text": "stateless DFS over environment choices of a scripted driver + virtual clock running the real do_remapping_loop_one_device"},
+ {"name": "B", "path": "harness/src/engine_b.rs", "serves_properties": ["C01","C02","C05","C06","C10","C11","C12","C19","C20"], "kind_free_text": "stateless DFS over environment choices of a scripted driver + virtual clock running the real do_remapping_loop_one_device"},
  {"name": "R", "path": "harness/src/engine_r.rs", "serves_properties": ["C10","C11","C12","C18","C20"], "kind_free_text": "the real RealDriver, readers, writer and poll registry over socket pairs and a pipe, stepped deterministically (loop thread observed at rest in epoll_wait); bounded-exhaustive scenario families with descriptor-state faults"},
  {"name": "E", "path": "harness/src/e2e.rs", "serves_properties": ["C14","C15","C17"], "kind_free_text": "the real binary (guard off) in a private mount namespace with a private /etc and /dev and no-op helper programs: add_systemd_service and remap --layout-file over the same exhaustive input families, the files it leaves behind judged by the in-process oracles (DESIGN 5.5)"},
  {"name": "C", "path": "harness/src", "serves_properties": ["C13","C14","C15","C16","C17","C18"], "kind_free_text": "bounded-exhaustive input enumeration of the pure functions against small reference models; one file per property: c13.rs ... c18.rs"},
